@@ -449,8 +449,8 @@ theorem as_kind_exact_partial (cfg : CheckCfg) (c : Spec.SCfg) (henv : EnvConfor
 /-! ### soundness proved: the extended fragment (collections), against `Spec.eval`
 
 `inFrag2` adds to the scalar fragment: the closure variable `#`, `in` / `not in` on a slice, the range
-`..`, indexing a slice by an integer, `len`, and the predicate builtins `all none any one count` with a
-closure.  `typed2` is "every operand has a static type the construct's rule is sound for": scalar operands
+`..`, indexing and slicing a slice by integers, `len`, the predicate builtins `all none any one count` with
+a closure, and (`inFrag2 true`) calls of environment functions.  `typed2` is "every operand has a static type the construct's rule is sound for": scalar operands
 for the scalar operators and the predicate's body, a slice of scalars (`[]int`, `[]string`, …) where a
 collection is expected, an integer (not `interface{}`) index.  This excludes, explicitly, the constructs
 behind the known findings: the loose index rule (index typed `interface{}`), `filter`/`map` (static slice
@@ -464,7 +464,7 @@ scalars), evaluating the annotated tree with the reference evaluator yields a va
 slice: with the static element tag and all elements of the element type — or fails with a
 value-dependent error; never with a type error. -/
 theorem check_sound_collections_partial (cfg : CheckCfg) (c : Spec.SCfg) (henv : EnvConforms2 cfg c.env)
-    (n n' : Node) (τ : OTy) (V : VTy) (hfrag : inFrag2 n = true) (hstatic : typed2 cfg [] n = true)
+    (n n' : Node) (τ : OTy) (V : VTy) (hfrag : inFrag2 false n = true) (hstatic : typed2 cfg [] n = true)
     (h : check cfg n = .ok n' τ) (hV : vtyOf τ = some V) (ctx : Spec.Ctx) (s : Spec.SState) :
     match (Spec.eval c ctx n' s).1 with
     | .ok v => ValOfV v V
@@ -472,7 +472,29 @@ theorem check_sound_collections_partial (cfg : CheckCfg) (c : Spec.SCfg) (henv :
   have hs := accepted_type_is_synth cfg n n' τ h
   obtain ⟨hn', _, _, _⟩ := (check_ok_iff cfg n n' τ).1 h
   obtain ⟨_, _, hev⟩ := frag2_sound (E := ValueDep) (Or.inl rfl) (Or.inr (Or.inl rfl)) (Or.inr (Or.inr rfl))
-    cfg c henv n [] hfrag hstatic τ V hs hV {} rfl
+    cfg c henv false (fun h => by cases h) n [] hfrag hstatic τ V hs hV {} rfl
+  rw [hn'] at hev
+  exact hev ctx trivial s
+
+/-- **Soundness with calls of environment functions**, behind the hypothesis on the world
+(`WorldConforms`): a function of the environment, called with arguments of its parameter types, returns
+a value of its declared result type or fails with a tolerated class — here the value-dependent ones and
+`ErrClass.call`, a panic inside the function.  Arguments (`argOK`): an expression whose type is the
+parameter's value type and which the checker does not retype, or a tree of integer literals retyped to a
+numeric parameter (`Ff(1)`, `Ff(-(1 + 2))`); the retyped non-literal arguments of the known finding
+(`Ff(+I)`, `Fi(F64 + 1)`) are excluded by this predicate. -/
+theorem check_sound_calls_partial (cfg : CheckCfg) (c : Spec.SCfg) (henv : EnvConforms2 cfg c.env)
+    (hworld : WorldConforms (fun e => ValueDep e ∨ e = .call) cfg c)
+    (n n' : Node) (τ : OTy) (V : VTy) (hfrag : inFrag2 true n = true) (hstatic : typed2 cfg [] n = true)
+    (h : check cfg n = .ok n' τ) (hV : vtyOf τ = some V) (ctx : Spec.Ctx) (s : Spec.SState) :
+    match (Spec.eval c ctx n' s).1 with
+    | .ok v => ValOfV v V
+    | .error e => ValueDep e ∨ e = .call := by
+  have hs := accepted_type_is_synth cfg n n' τ h
+  obtain ⟨hn', _, _, _⟩ := (check_ok_iff cfg n n' τ).1 h
+  obtain ⟨_, _, hev⟩ := frag2_sound (E := fun e => ValueDep e ∨ e = .call) (Or.inl (Or.inl rfl))
+    (Or.inl (Or.inr (Or.inl rfl))) (Or.inl (Or.inr (Or.inr rfl)))
+    cfg c henv true (fun _ => hworld) n [] hfrag hstatic τ V hs hV {} rfl
   rw [hn'] at hev
   exact hev ctx trivial s
 
@@ -481,7 +503,7 @@ theorem check_sound_collections_partial (cfg : CheckCfg) (c : Spec.SCfg) (henv :
 `int64`, under `AsFloat64` exactly a `float64`, or the run fails with a value-dependent error (`τ` scalar: not an
 `interface{}`-typed result, which the directives also admit). -/
 theorem as_kind_exact_collections_partial (cfg : CheckCfg) (c : Spec.SCfg) (henv : EnvConforms2 cfg c.env)
-    (n n' : Node) (τ : OTy) (hfrag : inFrag2 n = true) (hstatic : typed2 cfg [] n = true)
+    (n n' : Node) (τ : OTy) (hfrag : inFrag2 false n = true) (hstatic : typed2 cfg [] n = true)
     (h : check cfg n = .ok n' τ) (hτs : ScalarT τ) :
     (cfg.expect = .bool → match (Spec.run c none n').1 with
       | .ok v => ∃ b, v = .bool b | .error e => ValueDep e) ∧
@@ -552,10 +574,22 @@ def exprColl : Node :=
     (.builtin {} "all" [ident "Ints", .closure {} (.binary {} "in" (.pointer {}) (.binary {} ".." (.int {} 1) (ident "I")))])
     (.binary {} ">" (.builtin {} "len" [ident "Ints"]) (.index {} (ident "Ints") (.int {} 0)))
 
-example : inFrag2 exprColl = true ∧ typed2 (cfgWith .asIs) [] exprColl = true ∧
+/-- `Ff(-(1 + 2))`: integer literals retyped to the float64 parameter -/
+def exprFfLit : Node := .func {} "Ff" [.unary {} "-" (.binary {} "+" (.int {} 1) (.int {} 2))] false
+/-- `Fs(Ints[1:2][0] > I ? "a" : "b")` over `envTy` -/
+def exprFsCond : Node :=
+  .func {} "Fs" [.cond {} (.binary {} ">" (.index {} (.slice {} (ident "Ints") (some (.int {} 1)) (some (.int {} 2))) (.int {} 0))
+    (ident "I")) (.str {} "a") (.str {} "b")] false
+
+example : inFrag2 false exprColl = true ∧ typed2 (cfgWith .asIs) [] exprColl = true ∧
     (check (cfgWith .asIs) exprColl).okType = some boolTy ∧
+    inFrag2 true exprFfLit = true ∧ typed2 (cfgWith2 .asIs) [] exprFfLit = true ∧
+    (check (cfgWith2 .asIs) exprFfLit).okType = some (some (.num .float64)) ∧
+    inFrag2 true exprFsCond = true ∧ typed2 (cfgWith .asIs) [] exprFsCond = true ∧
+    (check (cfgWith .asIs) exprFsCond).okType = some (some .string) ∧
     -- the excluded constructs are outside the predicates
-    inFrag2 exprFilter = false ∧ inFrag2 exprFs1 = false ∧
+    inFrag2 true exprFilter = false ∧ typed2 (cfgWith .asIs) [] exprFs1 = false ∧
+    typed2 (cfgWith2 .asIs) [] exprFfPlusI = false ∧
     typed2 (cfgWith3 .asIs) [] exprAnyTimes1 = false ∧ typed2 (cfgWith .asIs) [] exprIntsA = false := by
   decide +kernel
 
